@@ -60,6 +60,18 @@ def ask_cli(p, texts):
     return r
 
 
+def file_hash(path, text):
+    """compile_prolog_from_file of `text` written to `path` (rewritten in place, modification time kept)"""
+    with open(path, 'w', encoding='utf8', newline='') as f:
+        f.write(text)
+    os.utime(path, ns=(1700000000 * 10 ** 9, 1700000000 * 10 ** 9))
+    try:
+        code = impl.compiler.compile_prolog_from_file(path)
+        return hashlib.sha256(code.encode('utf8', 'backslashreplace')).hexdigest()
+    except BaseException as e:      # noqa
+        return 'EXC:' + type(e).__name__
+
+
 def local(text, debug=False, debug_filename=False, from_file=False):
     class Ctx(impl.compiler.CompilerContext):       # options as a user would make them: derived from the library's class
         pass
@@ -195,10 +207,26 @@ class C18(Prop):
         detail = {'A': a, 'B': b, 'C_mode': case['cmode']}
         if h_a1 != h_a2:
             return FAIL('same-process:second-compilation-differs', dict(detail, first=h_a1[:16], second=h_a2[:16]))
+        if case['cmode'] == 'from-file':
+            # one path, rewritten with a text of the same length (two constants exchanged): the result is that of the text
+            import re
+            import tempfile
+            a2 = re.sub(r'\b([ab])\b', lambda m: 'b' if m.group(1) == 'a' else 'a', a)
+            if a2 != a and len(a2.encode('utf8')) == len(a.encode('utf8')):
+                path = os.path.join(tempfile.gettempdir(), 'verif-c18-samepath-%d.prolog' % os.getpid())
+                try:
+                    got = [file_hash(path, a), file_hash(path, a2), file_hash(path, a)]
+                finally:
+                    if os.path.exists(path):
+                        os.unlink(path)
+                want = [h_a1, local(a2), h_a1]
+                if got != want:
+                    return FAIL('file-result-depends-on-earlier-content-of-the-path', dict(detail, A2=a2, got=[g[:16] for g in got], want=[w[:16] for w in want]))
         ws = workers()
-        r = ask(ws[0], a, debug_filename=True)
-        if r != h_a3:
-            return FAIL('other-process-differs:A-with-debug_filename', dict(detail, in_process=h_a3[:16], worker=r[:16]))
+        for wi in (0, 1, 5):          # hash seeds 0 (as in this process), 1 and random
+            r = ask(ws[wi], a, debug_filename=True)
+            if r != h_a3:
+                return FAIL('other-process-differs:A-with-debug_filename', dict(detail, worker_hashseed=SEEDS[wi], in_process=h_a3[:16], worker=r[:16]))
         for i, p in enumerate(ws):
             text, h, which = (a, h_a1, 'A') if i % 2 == 0 else (b, h_b, 'B')
             r = ask(p, text)
